@@ -1096,6 +1096,14 @@ public:
       }
     };
 
+    // When the contents of src cannot be copied the old contents of
+    // dst must not survive the cast.
+    auto forget_region = [this](const variable_t &x) {
+      if (boost::optional<ghost_variables_t> x_gvars = get_gvars(x)) {
+        (*x_gvars).forget(m_base_dom);
+      }
+    };
+
     if (is_bottom()) {
       return;
     }
@@ -1125,6 +1133,7 @@ public:
       if (!has_dynamic_type(dst_rgn, dst_dyn_type)) {
         // skip assign ghost variables
         crab::CrabStats::count(domain_name() + ".count.region_cast.skipped");
+        forget_region(dst_rgn);
       } else {
         if (type_value(src_rgn.get_type()) <= dst_dyn_type) {
           // make sure dynamic types of src and dst are compatible
@@ -1133,6 +1142,7 @@ public:
           crab::CrabStats::count(
               domain_name() +
               ".count.region_cast.skipped.inconsistent_dynamic_type");
+          forget_region(dst_rgn);
         }
       }
     } else {
@@ -1147,6 +1157,7 @@ public:
       if (!has_dynamic_type(src_rgn, src_rgn_info.type_val())) {
         // skip assign ghost variables
         crab::CrabStats::count(domain_name() + ".count.region_cast.skipped");
+        forget_region(dst_rgn);
       } else {
         if (type_value(dst_rgn.get_type()) <= src_rgn_info.type_val()) {
           // make sure dynamic types of src and dst are compatible
@@ -1155,6 +1166,7 @@ public:
           crab::CrabStats::count(
               domain_name() +
               ".count.region_cast.skipped.inconsistent_dynamic_type");
+          forget_region(dst_rgn);
         }
       }
     }
